@@ -101,6 +101,20 @@ def run(tier, seed, t0):
                                          'what': 'a BTree%s of %s SocketAddrV6 keys that differ only in scope_id serializes, but decoding the bytes gives %s [%s]'
                                                  % ('Set' if kind == 'set' else 'Map', f.get('n'), f.get('de'), cfg), 'cfg': cfg,
                                          'replay_cmd': "printf 'k\\tsockv6keys\\t-\\t-\\n' | " + exe})
+            # the same for RangeInclusive keys of an index collection: Eq / Hash see the `exhausted` flag (finding F29)
+            r = run_cases(exe, [case_line('kr', 'rangekeys', '-', '-')]).get('kr')
+            stats['evaluations'] += 1
+            if not r or ';' not in r:
+                disagreements.append({'what': 'rangekeys gave no answer: %r [%s]' % (r, cfg)})
+            else:
+                for part in r.split(';'):
+                    kind, _, rest = part.partition(' ')
+                    n, _, de = rest.partition(' de=')
+                    if de != 'ok ' + n.replace('n=', ''):
+                        failures.append({'class': 'uncarried-key-collision-range', 'key': 'rangeinclusive ' + kind,
+                                         'what': 'an Index%s of %s RangeInclusive<u8> keys that differ only in the exhausted flag serializes, but decoding the bytes gives %s [%s]'
+                                                 % ('Set' if kind == 'set' else 'Map', n.replace('n=', ''), de, cfg), 'cfg': cfg,
+                                         'replay_cmd': "printf 'k\\trangekeys\\t-\\t-\\n' | " + exe})
             r = run_cases(exe, [case_line('k6d', 'sockv6dec', '-', '-')]).get('k6d')
             stats['evaluations'] += 1
             want = 'len=18 ip=true port=true flow=0 scope=0'
